@@ -26,6 +26,7 @@ type vConn struct {
 	dead    bool
 	faults  bool
 	onSend  func(pkt packet.Generic)
+	failNext int // the next n sends fail (deterministic fault)
 }
 
 func newVConn(faults bool) *vConn {
@@ -37,6 +38,13 @@ func (c *vConn) Send(pkt packet.Generic, async bool) error {
 	defer c.mu.Unlock()
 	if c.closed || c.dead {
 		return errVConnClosed
+	}
+	if c.failNext > 0 {
+		c.failNext--
+		c.dead = true
+		c.closed = true
+		close(c.closeCh)
+		return errVConnFault
 	}
 	if c.faults && vFail("send") {
 		// like BaseConn: a failed write closes the carrier, a pending Receive fails
